@@ -25,6 +25,35 @@ Theorem c04_v0_refuted : exists x, ~ spec x (identity_v0 x).
 Proof. exact v0_refuted. Qed.
 Print Assumptions c04_v0_refuted.
 
+(* the same over call SEQUENCES on long-lived provider objects: for every sequence of calls
+   (parse_authn_request_response, service_urls, Config.endpoint, create_authn_request) on any number
+   of provider objects with any configurations, every parse call satisfies the property with respect
+   to the configuration of the object it was called on *)
+Theorem c04_sequences : forall ops, spec_trace ops (run_ops ops).
+Proof. exact trace_holds. Qed.
+Print Assumptions c04_sequences.
+
+(* ... and the boolean evaluated on the observed sequence is that statement *)
+Theorem c04_trace_reflect : forall ops rs, spec_trace_b ops rs = true <-> spec_trace ops rs.
+Proof. exact spec_trace_b_iff. Qed.
+Print Assumptions c04_trace_reflect.
+
+(* the verdict on a Response does not depend on the calls made before or after it *)
+Theorem c04_history_independent : forall pre post x,
+  nth_error (run_ops (pre ++ OParse x :: post)) (length pre) = Some (RId (identity x)).
+Proof. exact history_independent. Qed.
+Print Assumptions c04_history_independent.
+
+(* return_addrs (what the Destination / Recipient are compared with) consists of the object's own
+   endpoints for the binding; so does the consumer URL written into an AuthnRequest *)
+Theorem c04_return_addrs_own : forall specs b d, In d (return_addrs specs b) -> own_endpoint specs b d.
+Proof. exact return_addrs_own. Qed.
+Print Assumptions c04_return_addrs_own.
+
+Theorem c04_request_acs_own : forall specs b u, request_acs_url specs b = Some u -> own_endpoint specs b u.
+Proof. exact request_acs_url_own. Qed.
+Print Assumptions c04_request_acs_own.
+
 (* correctly addressed Responses pass the addressing checks *)
 Theorem c04_complete : forall x d r,
   (forall q, In q (rs x) -> In (Some (me x)) q) -> me x <> EmptyString -> no_outer_ws (me x) = true ->
